@@ -87,6 +87,9 @@ def check_code(ctx, v):
     texts = ctx.guard(lambda: (format(x, ""), str(x), f"{x}"), "C18:text", payload)
     if texts is None:
         return
+    if v != 0 and any(t == "TPM_RC.SUCCESS" for t in texts):
+        ctx.problem("C18:text:nonzero-success", f"TPM_RC({v:#x}) reads {texts[0]!r}: only zero is SUCCESS (the decoder treats this response as failed)", payload)
+        return
     if in_domain:
         for which, text in zip(("format", "str", "fstring"), texts):
             bad = None
@@ -180,6 +183,84 @@ def check_code(ctx, v):
             ctx.problem("C18:rows-class:vendor", f"TPM_RC({v:#x}): vendor-defined code explained as {named}", payload)
 
 
+def expected_text_problem(v, text):
+    """None if `text` is an acceptable text form of code v (in the statement's domain), else what is wrong."""
+    cls, n, name = classify(v)
+    if v != 0 and text == "TPM_RC.SUCCESS":
+        return "a non-zero code reads as SUCCESS"
+    if cls == "tpm12":
+        return None
+    if not text.startswith("TPM_RC."):
+        return "does not start with TPM_RC."
+    if cls == "success":
+        return None if text == "TPM_RC.SUCCESS" else "zero must be TPM_RC.SUCCESS"
+    if cls in CLASS_TEXT:
+        want_suffix = " (" + CLASS_TEXT[cls].format(n) + ")"
+        if not text.endswith(want_suffix):
+            return f"must be attributed to{want_suffix}"
+        shown = text[len("TPM_RC.") : -len(want_suffix)]
+        if name is not None and shown != name:
+            return f"format-one error number {v & 0x3F:#x} is {name}"
+        if name is None and shown in ALL_NAMES:
+            return f"error number {v & 0x3F:#x} is undefined but shown as {shown}"
+        return None
+    shown = text[len("TPM_RC.") :]
+    if cls == "vendor":
+        return None if ("endor" in shown and shown.split(" ")[0] not in ALL_NAMES) else "vendor-defined code must be shown as vendor-defined"
+    if name is not None and shown != name:
+        return f"{cls} number {v & 0x7F:#x} is {name}"
+    if name is None and shown.split(" ")[0] in ALL_NAMES:
+        return f"{cls} number {v & 0x7F:#x} is undefined but shown as {shown}"
+    return None
+
+
+def rows_name_problem(v, rows):
+    """The rows' details must carry the class / number / name of code v (rows: (name, mask, details) triples)."""
+    cls, n, name = classify(v)
+    alldet = " | ".join(str(d) for _, _, d in rows if d)
+    code_det = [str(d) for nm, _, d in rows if nm == "code" and d]
+    shown = code_det[0].split(":")[0] if code_det else None
+    if cls in CLASS_TEXT:
+        if CLASS_TEXT[cls].format(n) not in alldet:
+            return f"rows' details {alldet!r} do not say {CLASS_TEXT[cls].format(n)!r}"
+    elif cls in ("warning", "error"):
+        sev = [d for _, _, d in rows if d in ("Warning", "Error")]
+        if sev != ["Warning" if cls == "warning" else "Error"]:
+            return f"severity shown as {sev}"
+    else:
+        return None
+    if name is not None and shown != name:
+        return f"the code row names {shown!r}, the code is {name}"
+    if name is None and shown in ALL_NAMES:
+        return f"the code row names {shown!r} although number {v & 0x7F:#x} is undefined in this table"
+    return None
+
+
+def check_neighbours(ctx, v):
+    """Stale state between calls: right after another code was formatted / classified - one that differs in a single bit, so
+    that any partial cache key collides - code v must still read as itself, and a fresh object's rows (asked for *before* its
+    text) must be v's rows."""
+    T = O.lib_type("TPM_RC")
+    for b in (0, 5, 6, 7, 8, 9, 10, 11, 12, 31):
+        u = v ^ (1 << b)
+        payload = {"value": v, "previous": u}
+        r = ctx.guard(lambda: (format(T(u), ""), format(T(v), "")), "C18:text", payload)
+        if r is None:
+            return
+        ctx.case(("nb", u, v), True)
+        bad = expected_text_problem(v, r[1])
+        if bad:
+            ctx.problem("C18:text-after-neighbour", f"TPM_RC({v:#x}) formatted right after TPM_RC({u:#x}) reads {r[1]!r}: {bad}", payload)
+            return
+        rows = ctx.guard(lambda: (format(T(u), ""), rows_snapshot(T(v).attributes()))[1], "C18:attributes", payload)
+        if rows is None:
+            return
+        bad = rows_name_problem(v, rows)
+        if bad:
+            ctx.problem("C18:rows-after-neighbour", f"rows of a fresh TPM_RC({v:#x}) asked for right after TPM_RC({u:#x}) was formatted: {bad}", payload)
+            return
+
+
 def rows_snapshot(rows):
     return [(getattr(r, "_name", None), int(getattr(r, "_value", -1)), getattr(r, "_details", None)) for r in rows]
 
@@ -233,6 +314,13 @@ def run_shard(ctx):
 
     ctx.run_plain(history, "history")
 
+    def neighbours():
+        for i, v in enumerate(vals):
+            if v < 0x1000 and (i % 2 == 0 or not ctx.quick()):
+                check_neighbours(ctx, v)
+
+    ctx.run_plain(neighbours, "neighbours")
+
 
 def finalize(merged):
     return {"coverage": {"codes_in_domain": len(domain())}}
@@ -241,4 +329,5 @@ def finalize(merged):
 def replay(ctx, payload):
     if "previous" in payload:
         check_history(ctx, payload["previous"], payload["value"])
+        check_neighbours(ctx, payload["value"])
     check_code(ctx, payload["value"])
